@@ -40,8 +40,11 @@ int ep8_cmp(const ep8_t p, const ep8_t q) {
 	ep8_t r, s;
 	int result = RLC_NE;
 
-	if (ep8_is_infty(p) && ep8_is_infty(q)) {
-		return RLC_EQ;
+	if (ep8_is_infty(p) || ep8_is_infty(q)) {
+		/* The cross-multiplication below cannot tell the point at infinity
+		 * (stored with x = y = 0) from the affine point (0, 0), which lies on
+		 * every curve with b = 0. */
+		return (ep8_is_infty(p) && ep8_is_infty(q)) ? RLC_EQ : RLC_NE;
 	}
 
 	ep8_null(r);
